@@ -1,6 +1,8 @@
 package main
 
 import (
+	"context"
+	"os"
 	"fmt"
 	"go/types"
 	"strings"
@@ -67,6 +69,10 @@ func (x *Exec) callWith(s *State, cc *ssa.CallCommon, args []Val, fnv *Val, inst
 		if f, ok := x.P.fnByID[id]; ok {
 			return x.callStatic(s, f, args, fv.L[1], instr, advance, setRes)
 		}
+	}
+	// the code is not syntactically known: ask the solver whether the path fixes it
+	if f := x.resolveCode(s, fv.L[0], cc.Signature()); f != nil {
+		return x.callStatic(s, f, args, fv.L[1], instr, advance, setRes)
 	}
 	// unknown code: field contract or generic
 	origin := x.funcValueOrigin(cc.Value)
@@ -619,10 +625,15 @@ func (x *Exec) havocGuarded(s *State, base, muPath string) {
 	s.assume(env.invOf(this, ""))
 }
 
+var specDefines map[string]*Define
+
 func usesEvents(e *SExpr) bool {
 	if e.Op == "call" && e.Args[0].Op == "id" {
 		switch e.Args[0].Tok {
-		case "ncalls", "ncallsOn", "callarg", "callres", "callrecv", "callpos", "nevents":
+		case "ncalls", "ncallsOn", "callarg", "callres", "callrecv", "callpos", "nevents", "calledUnder", "lastcallarg", "ncallsIter", "callresIter", "callargIter", "callrecvIter":
+			return true
+		}
+		if d, ok := specDefines[e.Args[0].Tok]; ok && d.Body != nil && usesEvents(d.Body) {
 			return true
 		}
 	}
@@ -632,4 +643,62 @@ func usesEvents(e *SExpr) bool {
 		}
 	}
 	return false
+}
+
+// resolveCode: is the function value's code fixed by the path condition? Candidates are the
+// repo functions with an identical signature; each candidate costs one small solver query.
+func (x *Exec) resolveCode(s *State, code string, sig *types.Signature) *ssa.Function {
+	if x.resolveCache == nil {
+		x.resolveCache = map[string]*ssa.Function{}
+	}
+	var cands []*ssa.Function
+	for id, f := range x.P.fnByID {
+		_ = id
+		if len(f.Blocks) > 0 && types.Identical(f.Signature.Params(), sig.Params()) && types.Identical(f.Signature.Results(), sig.Results()) && f.Signature.Recv() == nil {
+			if f.Parent() != nil || strings.HasSuffix(f.Name(), "$bound") {
+				cands = append(cands, f)
+			}
+		}
+	}
+	if len(cands) == 0 || len(cands) > 12 {
+		return nil
+	}
+	key := code + "|" + strings.Join(s.pc, ";")
+	if f, ok := x.resolveCache[key]; ok {
+		return f
+	}
+	for _, f := range cands {
+		id := fmt.Sprint(x.P.fnIDs[f])
+		o := &Obligation{PC: s.pc, Goal: sEq(code, id), DeclText: x.D.text()}
+		tmp, err := os.CreateTemp("", "gcv-resolve-*.smt2")
+		if err != nil {
+			return nil
+		}
+		tmp.WriteString(smtText(o, true))
+		tmp.Close()
+		r := runOneSolver(context.Background(), solvers[0], tmp.Name(), 2)
+		os.Remove(tmp.Name())
+		if r.Status == "unsat" {
+			// guard against an infeasible path (which would "resolve" to anything)
+			o2 := &Obligation{PC: s.pc, Goal: "false", DeclText: x.D.text()}
+			tmp2, err := os.CreateTemp("", "gcv-resolve-*.smt2")
+			if err != nil {
+				return nil
+			}
+			tmp2.WriteString(smtText(o2, true))
+			tmp2.Close()
+			r2 := runOneSolver(context.Background(), solvers[0], tmp2.Name(), 2)
+			os.Remove(tmp2.Name())
+			if r2.Status == "unsat" {
+				s.dead = true
+				x.paths++
+				return nil
+			}
+			x.resolveCache[key] = f
+			x.note("call through a function value resolved by the path condition to " + fnName(f))
+			return f
+		}
+	}
+	x.resolveCache[key] = nil
+	return nil
 }
